@@ -7,8 +7,8 @@ META = dict(
     text="Every errno in errno.errorcode (130 on Linux) is raised as a real OSError, and every TLS error kind (SSLWantRead, "
          "SSLWantWrite, SSLEOFError, SSLZeroReturnError, SSLSyscallError, SSLError, certificate error) as the real ssl "
          "exception, from send and recv of Client, ClientTls, Incomer and IncomerTls - called directly, through "
-         "serviceTxes/serviceReceives/serviceReceiveOnce, and after one successful transfer in the same service call (the "
-         "direct and after-transfer entries again with ioflo's console at profuse verbosity and payloads that are not UTF-8); every "
+         "serviceTxes/serviceReceives/serviceReceiveOnce, and after one successful transfer in the same service call (Client and "
+         "ClientTls also built reconnectable=True; the direct and after-transfer entries again with ioflo's console at profuse verbosity and payloads that are not UTF-8); every "
          "errno is also returned (and raised) by connect_ex for both client classes, raised by do_handshake for both TLS "
          "classes, and raised by sendto/recvfrom under a real UdpStack + SocketUdpNb, with console verbosity {0, profuse} x payload {ASCII, not "
          "valid UTF-8}. Oracle = the statement's table: "
@@ -99,15 +99,16 @@ def classify(fault, tls):
     return "other"
 
 
-def make_stream(kind, fn):
+def make_stream(kind, fn, reconnectable=False):
     ck = net.clock()
     FSM.net = fn
     if kind in ("Client", "ClientTls"):
         ls = fn.listen((net.LOOP, PORT))
         if kind == "Client":
-            t = M["clienting"].Client(ha=(net.LOOP, PORT), store=ck)
+            t = M["clienting"].Client(ha=(net.LOOP, PORT), store=ck, reconnectable=reconnectable)
         else:
-            t = M["clienting"].ClientTls(ha=(net.LOOP, PORT), store=ck, context=net.FakeSslContext(fn))
+            t = M["clienting"].ClientTls(ha=(net.LOOP, PORT), store=ck, context=net.FakeSslContext(fn),
+                                         reconnectable=reconnectable)
         t.reopen()
         if not t.serviceConnect():
             raise core.BrokenCheck("%s did not connect over ideal doubles" % kind)
@@ -136,12 +137,12 @@ def same_exc(ex, fault):
     return isinstance(ex, OSError) and not isinstance(ex, ssl.SSLError) and ex.args[0] == fault[1]
 
 
-def stream_case(kind, op, entry, fault, p, loud=False):
+def stream_case(kind, op, entry, fault, p, loud=False, reconnectable=False):
     set_loud(loud)
     one, two = (b"\xffne", b"tw\xfe") if loud else (b"one", b"two")     # loud: payloads that are not valid UTF-8
     tls = kind.endswith("Tls")
     fn = net.FakeNet()
-    t, raw = make_stream(kind, fn)
+    t, raw = make_stream(kind, fn, reconnectable)
     want = classify(fault, tls)
     progress = b""
     if op == "send":
@@ -186,7 +187,7 @@ def stream_case(kind, op, entry, fault, p, loud=False):
         got = "changed"
     p.evaluations += 1
     p.outcome("%s %s" % (want, got))
-    p.nontrivial("%s|%s|%s|%s|%d" % (kind, op, entry, net.show(fault), loud))
+    p.nontrivial("%s|%s|%s|%s|%d|%d" % (kind, op, entry, net.show(fault), loud, reconnectable))
     ok = True
     why = ""
     if want == "loss":
@@ -225,10 +226,12 @@ def stream_case(kind, op, entry, fault, p, loud=False):
                     once="serviceReceiveOnce")
         meth["after-progress"] = meth["service"]
         p.violation("%s.%s|%s->%s" % (kind, op, want, got),
-                    "fault=%s entry=%s%s" % (net.show(fault), entry, " console=profuse payload=non-utf8" if loud else ""),
+                    "fault=%s entry=%s%s" % (net.show(fault), entry, (" console=profuse payload=non-utf8" if loud else "") +
+                                                  (" reconnectable" if reconnectable else "")),
                     "%s: socket %s raising %s inside %s() must be handled as '%s' but was '%s' %s"
                     % (kind, op, net.show(fault), meth[entry], want, got, why),
-                    dict(case=["stream", kind, op, entry, list(fault), loud], console_profuse=loud,
+                    dict(case=["stream", kind, op, entry, list(fault), loud, reconnectable], console_profuse=loud,
+                         reconnectable=reconnectable,
                          transport=kind, socket_op=op, method=meth[entry], fault=net.show(fault), expected=want,
                          observed=got, returned=repr(ret), raised=repr(raised), before=before, after=after,
                          how="connect the transport over doubles, make the next %s() of its socket raise the fault, "
@@ -418,7 +421,7 @@ def finish_replay(pid, path, p):
 
 def run_case(c, p):
     if c[0] == "stream":
-        stream_case(c[1], c[2], c[3], tuple(c[4]), p, *c[5:6])
+        stream_case(c[1], c[2], c[3], tuple(c[4]), p, *c[5:7])
     elif c[0] == "connect":
         connect_case(c[1], c[2], c[3], p)
     elif c[0] == "handshake":
@@ -454,6 +457,14 @@ def cases():
             for entry in (("direct", "after-progress") if op == "send" else ("direct", "after-progress")):
                 for f in faults(tls):
                     out.append(("stream", kind, op, entry, f, True))
+    # client classes built reconnectable=True: the classification must not depend on it
+    for kind in ("Client", "ClientTls"):
+        tls = kind.endswith("Tls")
+        for op in ("send", "recv"):
+            entries = ("direct", "service", "after-progress") if op == "send" else ("direct", "service", "once", "after-progress")
+            for entry in entries:
+                for f in faults(tls):
+                    out.append(("stream", kind, op, entry, f, False, True))
     for op in ("sendto", "recvfrom"):
         for loud, binary in ((True, False), (False, True), (True, True)):
             for e in net.ALL_ERRNOS:
